@@ -153,6 +153,9 @@ func (w *World) step(t *Thread) {
 			fnn := f.fn.Name()
 			o.label = fnn + "." + i.Comment // a local variable shared with a closure / goroutine
 		}
+		if i.Heap && w.raceOn && i.Comment == "makeslice" && !isHarnessFn(f.fn) {
+			o.label = "slice@" + f.fn.Name() // backing array made by library code: element accesses are race-checked
+		}
 		f.regs[i] = Ptr{o: o}
 	case *ssa.Store:
 		ap := w.val(f, i.Addr).(Ptr)
@@ -280,11 +283,21 @@ func (w *World) step(t *Thread) {
 			f.regs[i] = BytesV{&Rec{empty: n == 0, name: "raw"}}
 			break
 		}
+		capN := n
+		if i.Cap != nil {
+			if c, ok := w.val(f, i.Cap).(int64); ok && int(c) > n {
+				capN = int(c)
+			}
+		}
 		av := ArrayV{}
-		for k := 0; k < n; k++ {
+		for k := 0; k < capN; k++ {
 			av.e = append(av.e, zero(et))
 		}
-		f.regs[i] = SliceV{w.newObj(av, nil), 0, n}
+		o := w.newObj(av, nil)
+		if w.raceOn && !isHarnessFn(f.fn) {
+			o.label = "slice@" + f.fn.Name() // backing array made by library code: accesses are race-checked
+		}
+		f.regs[i] = SliceV{o, 0, n}
 	case *ssa.MapUpdate:
 		m := w.val(f, i.Map).(*MapV)
 		if m == nil {
@@ -813,6 +826,9 @@ func (w *World) callee(t *Thread, f *Frame, c ssa.CallCommon) (FuncV, []Val) {
 		}
 		if cx, ok := recv.v.(*Ctx); ok {
 			return FuncV{intr: "ctx." + c.Method.Name(), data: cx}, args
+		}
+		if op, ok := recv.v.(Opaque); ok && strings.HasPrefix(op.what, "stdlib:") {
+			return FuncV{intr: op.what + "." + c.Method.Name()}, args
 		}
 		m := w.prog.LookupMethod(recv.typ, c.Method.Pkg(), c.Method.Name())
 		if m == nil {
